@@ -43,6 +43,29 @@ def quad_contract():
   )
 
 
+X0, X1 = "result[1][0]", "result[1][1]"
+
+
+def quad2_contract():
+  """_ray_quad with BOTH roots described (what ray_capsule's end caps consume); a may be 0 (ray parallel to the axis)"""
+  MINVAL = __import__("wpv.consts", fromlist=["x"]).CONSTS["consts"]["MJ_MINVAL"]
+  real = f"(a > 0.0 and b*b - a*c >= {MINVAL})"
+  return FuncContract(
+    QUAD,
+    requires=["a >= 0.0"],
+    ensures=[
+      "result[0] == -1.0 or result[0] >= 0.0",
+      f"implies(b*b - a*c < {MINVAL}, result[0] == -1.0 and {X0} == -1.0 and {X1} == -1.0)",
+      f"implies({real}, {X0} < {X1})",
+      f"implies({real}, a*({X0} + {X1}) == -2.0*b)",
+      f"implies({real}, a*{X0}*{X1} == c)",
+      f"implies({real}, a*{X0}*{X0} + 2.0*b*{X0} + c == 0.0 and a*{X1}*{X1} + 2.0*b*{X1} + c == 0.0)",
+      f"implies(a > 0.0 and result[0] >= 0.0, {POLY} == 0.0)",
+      f"implies({real}, result[0] == wp.where({X0} >= 0.0, {X0}, wp.where({X1} >= 0.0, {X1}, -1.0)))",
+    ],
+  )
+
+
 def g_eliminate(tier):
   key = "ray:_ray_eliminate"
   R = Run(key)
@@ -100,5 +123,157 @@ def g_plane(tier):
   return obs
 
 
+def g_quad2(tier):
+  return quad2_contract().verify(prefix="_ray_quad[both roots]", timeout_ms=30000)
+
+
+def g_map(tier):
+  return map_contract().verify(prefix="_ray_map", timeout_ms=30000)
+
+
+def map_contract():
+  d = [f"(pnt[{i}] - pos[{i}])" for i in range(3)]
+  ens = []
+  for k in range(3):
+    ens.append(f"result[0][{k}] == " + " + ".join(f"mat[{i}, {k}]*{d[i]}" for i in range(3)))
+    ens.append(f"result[1][{k}] == " + " + ".join(f"mat[{i}, {k}]*vec[{i}]" for i in range(3)))
+  return FuncContract("ray:_ray_map", ensures=ens)
+
+
+def g_capsule(tier):
+  """(C) ray.ray_capsule in the geom's local frame, run against the contracts of _ray_map (fresh local ray), ray_sphere
+  (bounding test: only the sign convention) and _ray_quad (both roots). P(t) = lp + t*lv; r = size[0], h = size[1].
+  The nonlinear argument is cut into steps; every step is an obligation, later steps assume the statements of earlier
+  ones: (1) polynomial identities linking each quadratic the code solves to its surface, proved from no hypotheses;
+  (2) the abstract fact "a root of a*t^2+2*b*t+c is one of the two numbers with that sum and product"; (3) the
+  program-structural facts (which candidates the code looks at), (4) the conclusions."""
+  from wpv.contracts import Obligation
+  from wpv.sym import tobool
+
+  key = "ray:ray_capsule"
+  MINVAL = __import__("wpv.consts", fromlist=["x"]).CONSTS["consts"]["MJ_MINVAL"]
+  Q = quad2_contract()
+  M = FuncContract("ray:_ray_map", ensures=[])
+  S = FuncContract("ray:ray_sphere", ensures=["result[0] == -1.0 or result[0] >= 0.0"])
+  R = Run(key, contracts={QUAD: Q, "ray:_ray_map": M, "ray:ray_sphere": S}, pre=["size[0] > 0.0", "size[1] >= 0.0"])
+  obs = []
+  ok = Q.uses == 3 and M.uses == 1 and S.uses == 1
+  obs.append(Result(oid="ray_capsule#structure", status="discharged" if ok else "undecided", kind="contract", func=key, backend="analysis", reason="" if ok else f"calls: _ray_quad {Q.uses}, _ray_map {M.uses}, ray_sphere {S.uses}", meta={"function": key, "goal": "the capsule test maps the ray once, tests the bounding sphere once and solves three quadratics (side, top cap, bottom cap)"}))
+  if not ok:
+    return obs
+  R.qvars["lp"], R.qvars["lv"] = M.results[0]
+  R.qvars["bound"] = S.results[0][0]
+  for n, tag in enumerate("stb"):  # side, top, bottom
+    for k in "abc":
+      R.qvars[k + "_" + tag] = Q.calls[n][k]
+    R.qvars["r_" + tag], R.qvars["x_" + tag] = Q.results[n]
+  y = R.var("y", "float")
+  T = lambda text: zb(tobool(R.term(text)))
+  pure = lambda oid, text, goal: Obligation(oid, [], T(text), func=key, kind="lemma", meta={"function": key, "source_hash": R.info.source_hash, "goal": goal + ": " + text[:200], "timeout_ms": 30000})
+  pt = lambda t: [f"(lp[{i}] + {t}*lv[{i}])" for i in range(3)]
+  a3 = "(lv[0]*lv[0] + lv[1]*lv[1] + lv[2]*lv[2])"
+  pre = f"bound >= 0.0 and {a3} > 0.0"
+  hints = [["lp[0] == 0.0", "lp[1] == 0.0", "lp[2] == -5.0", "lv[0] == 0.0", "lv[1] == 0.0", "lv[2] == 1.0", "size[0] == 1.0", "size[1] == 1.0", "bound == 1.0"]]
+  obs.append(canary(R, "ray_capsule#canary", hints=hints))
+  obs += R.side_obligations("ray_capsule#")
+  # where a counter-model is looked for first when a proof fails (a model of query + hint is a model of the query):
+  # rays along / oblique to the axis, starting inside the cylinder section and outside
+  starts = [("0.0", "0.0", "0.0"), ("0.0", "0.0", "5.0"), ("0.5", "0.0", "0.0"), ("0.0", "0.0", "-5.0"), ("3.0", "0.0", "0.0")]
+  dirs = [("0.0", "0.0", "1.0"), ("0.0", "0.0", "-1.0"), ("1.0", "0.0", "1.0"), ("-1.0", "0.0", "0.0")]
+  search = [[T(f"lp[{i}] == {p[i]}") for i in range(3)] + [T(f"lv[{i}] == {d[i]}") for i in range(3)] + [T("size[0] == 1.0"), T("size[1] == 2.0"), T("bound == 1.0")] for p in starts for d in dirs]
+
+  def native(clause):
+    """replay of a counter-model: the real ray_capsule on the local ray itself (pos = 0, mat = identity)"""
+    import json
+    import os
+
+    from wpv.contracts import _num
+    from wpv.sym import lift
+
+    text = clause.replace("lp[", "pnt[").replace("lv[", "vec[").replace("bound >= 0.0 and ", "")
+
+    def run(model, ob):
+      if model is None:
+        return {"reproduced": None, "note": "no model object"}
+      from wpv import replay as rp
+
+      val = lambda t: _num(model, lift(t, "float"))
+      params = [["pos", "vec3", [0.0, 0.0, 0.0]], ["mat", "mat33", [1.0, 0, 0, 0, 1.0, 0, 0, 0, 1.0]], ["size", "vec3", [val(c) for c in R.params["size"].comps]], ["pnt", "vec3", [val(c) for c in R.qvars["lp"].comps]], ["vec", "vec3", [val(c) for c in R.qvars["lv"].comps]]]
+      here = os.path.dirname(os.path.dirname(os.path.abspath(__file__)))
+      os.makedirs(os.path.join(here, "replay"), exist_ok=True)
+      safe = "".join(ch if ch.isalnum() or ch in "._-" else "_" for ch in ob.oid)[:100]
+      path = os.path.join("replay", f"func_{safe}.input.json")
+      with open(os.path.join(here, path), "w") as f:
+        json.dump({"module": "ray", "func": "ray_capsule", "params": params, "ret": ["float", "vec3"], "requires": ["size[0] > 0.0", "size[1] >= 0.0"], "clause": text, "extra": {"y": val(y)}}, f, indent=1)
+      cmd = ["VENV_PYTHON", "scenarios/replay_func.py", path]
+      rc, out = rp.run_native(cmd)
+      return {"native_cmd": cmd, "exit": rc, "reproduced": rc == 1, "meaning": "exit 1: the real ray_capsule violates the clause on the ray of the counter-model (local frame = world frame); 0: it does not; 2: not executable", "output": out[-2000:]}
+
+    return run
+
+  obs.append(R.obligation("ray_capsule#miss_is_minus_one", "result[0] == -1.0 or result[0] >= 0.0", meta={"goal": "a miss is reported as -1"}))
+
+  def capq(t, sgn):  # |P(t) - (0,0,+-h)|^2 - r^2
+    p = pt(t)
+    zc = f"({p[2]} - ({sgn}size[1]))"
+    return f"({p[0]}*{p[0]} + {p[1]}*{p[1]} + {zc}*{zc} - size[0]*size[0])"
+
+  sideq = lambda t: f"({pt(t)[0]}*{pt(t)[0]} + {pt(t)[1]}*{pt(t)[1]} - size[0]*size[0])"
+  poly = lambda tag, t: f"(a_{tag}*{t}*{t} + 2.0*b_{tag}*{t} + c_{tag})"
+  real = lambda tag: f"(a_{tag} > 0.0 and b_{tag}*b_{tag} - a_{tag}*c_{tag} >= {MINVAL})"
+  # (1) identities, for a generic parameter y
+  ids = {}
+  for tag, nm, q in (("s", "side", sideq("y")), ("t", "top", capq("y", "")), ("b", "bottom", capq("y", "-"))):
+    ids[tag] = f"{q} == {poly(tag, 'y')}"
+    obs.append(pure(f"ray_capsule#identity.{nm}", ids[tag], f"the {nm} quadratic the code solves is the {nm} surface equation along the ray"))
+  obs.append(pure("ray_capsule#identity.leading_coefficients", f"a_t == {a3} and a_b == {a3}", "the cap quadratics have leading coefficient |lv|^2"))
+  # (2) abstract root lemma, instantiated by substitution
+  A, B, C, U, V, Y = z3.Reals("A B C U V Y")
+  lem = z3.Implies(z3.And(A > 0, A * (U + V) == -2 * B, A * U * V == C, A * Y * Y + 2 * B * Y + C == 0), z3.Or(Y == U, Y == V))
+  obs.append(Obligation("ray_capsule#lemma.root_is_one_of_two", [], lem, func=key, kind="lemma", meta={"function": key, "goal": "a > 0, a(u+v) = -2b, a u v = c, a y^2 + 2 b y + c = 0  ->  y = u or y = v", "timeout_ms": 30000}))
+  inst = lambda tag, t: z3.substitute(lem, (A, R.term("a_" + tag)), (B, R.term("b_" + tag)), (C, R.term("c_" + tag)), (U, R.term(f"x_{tag}[0]")), (V, R.term(f"x_{tag}[1]")), (Y, R.term(t)))
+  # (3)+(4) the caps: every point of the ray on the outer hemisphere is a hit and bounds the reported distance
+  for tag, nm, sgn in (("t", "top", ""), ("b", "bottom", "-")):
+    on = f"({capq('y', sgn)} == 0.0 and {sgn}{pt('y')[2]} >= size[1])"
+    hyp = f"{pre} and y >= 0.0 and {on} and b_{tag}*b_{tag} - a_{tag}*c_{tag} >= {MINVAL}"
+    is_root = f"implies({hyp}, y == x_{tag}[0] or y == x_{tag}[1])"
+    obs.append(R.obligation(f"ray_capsule#{nm}_cap.point_is_a_candidate", is_root, extra_assume=[T(ids[tag]), T(f"a_t == {a3} and a_b == {a3}"), inst(tag, "y")], meta={"goal": f"a point of the ray on the {nm} cap sphere is one of the two roots the code examines", "timeout_ms": 60000}))
+    nat = f"implies({a3} > 0.0 and y >= 0.0 and {on}, result[0] >= 0.0 and result[0] <= y)"
+    obs.append(R.obligation(f"ray_capsule#{nm}_cap.nearest", f"implies({hyp}, result[0] >= 0.0 and result[0] <= y)", extra_assume=[T(is_root)], meta={"goal": f"every point of the ray on the outer {nm} hemisphere (y >= 0) is a hit, and the reported distance is not beyond it", "timeout_ms": 20000, "sat_hints": [h + [y == v] for h in search for v in (1, 3, 7)], "replay": native(nat)}))
+  # soundness of a reported hit
+  z = lambda t: f"(lp[2] + {t}*lv[2])"
+  cands = [f"(result[0] == r_s and r_s >= 0.0 and abs({z('r_s')}) <= size[1])"]
+  for tag, sgn in (("t", ""), ("b", "-")):
+    for i in range(2):
+      cands.append(f"(result[0] == x_{tag}[{i}] and x_{tag}[{i}] >= 0.0 and {sgn}{z(f'x_{tag}[{i}]')} >= size[1] and {real(tag)})")
+  s1 = f"implies({pre} and result[0] >= 0.0, " + " or ".join(cands) + ")"
+  obs.append(R.obligation("ray_capsule#hit.is_an_accepted_candidate", s1, meta={"goal": "a reported distance is the side root between the caps or a cap root on the outer half", "timeout_ms": 60000}))
+  roots = [f"implies(r_s >= 0.0, {poly('s', 'r_s')} == 0.0)"] + [f"implies({real(tag)}, {poly(tag, f'x_{tag}[{i}]')} == 0.0)" for tag in "tb" for i in range(2)]
+  for n, rt in enumerate(roots):
+    obs.append(R.obligation(f"ray_capsule#hit.candidate_is_a_root.{n}", f"implies({pre}, {rt})", extra_assume=[T("implies(lv[0]*lv[0] + lv[1]*lv[1] == 0.0, lv[0] == 0.0 and lv[1] == 0.0)")], meta={"goal": "each candidate solves its quadratic", "timeout_ms": 60000}))
+  obs.append(pure("ray_capsule#lemma.sum_of_squares_zero", "implies(lv[0]*lv[0] + lv[1]*lv[1] == 0.0, lv[0] == 0.0 and lv[1] == 0.0)", "a ray parallel to the axis has no side quadratic"))
+  X = "result[0]"
+  surf_at = lambda t: (f"({sideq(t)} == 0.0 and abs({z(t)}) <= size[1])", f"({capq(t, '')} == 0.0 and {z(t)} >= size[1])", f"({capq(t, '-')} == 0.0 and -{z(t)} >= size[1])")
+  surf = " or ".join(surf_at(X))
+  # per candidate: identity at the candidate + "the candidate is a root" -> the candidate's point is on its surface part;
+  # these small obligations carry no hypotheses other than the statements of earlier ones
+  cs = [("r_s", "s", 0, f"r_s >= 0.0 and abs({z('r_s')}) <= size[1]", sideq("r_s"), roots[0])]
+  n = 1
+  for tag, sgn, part in (("t", "", 1), ("b", "-", 2)):
+    for i in range(2):
+      t = f"x_{tag}[{i}]"
+      cs.append((t, tag, part, f"{t} >= 0.0 and {sgn}{z(t)} >= size[1] and {real(tag)}", capq(t, sgn), roots[n]))
+      n += 1
+  stmts = []
+  for k, (t, tag, part, cond, q, rt) in enumerate(cs):
+    ident = f"{q} == {poly(tag, t)}"
+    obs.append(pure(f"ray_capsule#identity.at_candidate.{k}", ident, "the identity at the candidate"))
+    st = f"implies({pre} and {cond}, {surf_at(t)[part]})"
+    obs.append(Obligation(f"ray_capsule#hit.candidate_on_surface.{k}", [T(ident), T(f"implies({pre}, {rt})")], T(st), func=key, kind="post", meta={"function": key, "source_hash": R.info.source_hash, "goal": "an accepted candidate's point lies on its part of the surface: " + t, "timeout_ms": 30000}))
+    stmts.append(T(st))
+  obs.append(Obligation("ray_capsule#hit_on_surface", [T(s1)] + stmts, T(f"implies({pre} and result[0] >= 0.0, {surf})"), func=key, kind="post", meta={"function": key, "source_hash": R.info.source_hash, "goal": "a reported hit lies on the cylinder side between the caps or on the outer half of a cap sphere", "timeout_ms": 30000, "sat_hints": search, "replay": native(f"implies({a3} > 0.0 and result[0] >= 0.0, {surf})")}))
+  return obs
+
+
 def groups(tier):
-  return [("eliminate", g_eliminate), ("quad", g_quad), ("sphere", g_sphere), ("plane", g_plane)]
+  return [("eliminate", g_eliminate), ("quad", g_quad), ("quad2", g_quad2), ("sphere", g_sphere), ("plane", g_plane), ("map", g_map), ("capsule", g_capsule)]
